@@ -42,6 +42,7 @@ type Engine struct {
 	guarded   map[string]string // pkgpath.Type.field -> mutex field name
 	cglob     map[*ssa.Global]cglobInfo
 	cglobNames []string
+	chanIDs    map[string]int
 }
 
 func newEngine(repo string) *Engine {
@@ -458,6 +459,19 @@ func (e *Engine) effectFree(key string) bool {
 		}
 	}
 	return false
+}
+
+// chanID numbers channel keys (index into the nsent ghost).
+func (e *Engine) chanID(key string) string {
+	if e.chanIDs == nil {
+		e.chanIDs = map[string]int{}
+	}
+	if n, ok := e.chanIDs[key]; ok {
+		return fmt.Sprint(n)
+	}
+	n := len(e.chanIDs) + 1
+	e.chanIDs[key] = n
+	return fmt.Sprint(n)
 }
 
 // constGlobal reports whether a package-level variable is written only by its package initializer; such variables
